@@ -107,8 +107,11 @@ NestedMaps == {[k |-> "map", ps |-> p] : p \in MapsOf(Leaves, ShortSeqs, 1)}
 \* sequences of `any` with undefined members
 WithNil == {[k |-> "seq", es |-> s] : s \in SeqsOf(Leaves \cup {[k |-> "nil"]}, 2)}
 
+\* maps whose values may be undefined (nil): a nil value is not an absent key
+NilMaps == {[k |-> "map", ps |-> p] : p \in MapsOf(Leaves, {[k |-> "leaf", c |-> 1], [k |-> "nil"]}, MaxLen)}
+
 Universe == [flatseqs |-> FlatSeqs, flatmaps |-> FlatMaps, nestedseqs |-> NestedSeqs,
-             nestedmaps |-> NestedMaps, withnil |-> WithNil]
+             nestedmaps |-> NestedMaps, withnil |-> WithNil, nilmaps |-> NilMaps]
 
 VARIABLE dummy
 Init == /\ dummy = 0
